@@ -13,7 +13,7 @@ EXPLANATION = (
     "a use that is not dominated by the classifier's success edge (or, for errno construction, its error edge) is a violation, as is a result that is never looked at, "
     "except for a reviewed table of calls that cannot fail or do not return (EXIT, RT_SIGRETURN, GETPID, MUNMAP==0 in the allocator, SET_TID_ADDRESS, ARCH_PRCTL, EXECVE which only returns on error); "
     "C09.3 every errno handed to Error::with_code that derives from a syscall result is exactly 0 - (res as i32); "
-    "C09.4 on the success edge the Ok payload is the result itself, a cast of it or unrelated to it (no arithmetic on it); "
+    "C09.4 on the success edge the Ok payload is the result itself, a cast of it or unrelated to it (no arithmetic on it), and for calls whose success value is a full-width quantity (offsets, byte counts, addresses) it never passes through a 32-bit cast or the 31-bit descriptor decoder; "
     "C09.5 no raw syscall site lies on a CFG cycle except dup's documented EBUSY retry, whose back edge must be on the classified error path with errno == EBUSY; "
     "C09.6 wrappers returning a descriptor build it with coerce_from_register. "
     "NOT decided: what the kernel returns; behaviour under forced results (fault injection).")
@@ -44,6 +44,10 @@ REVIEWED_RAW_COMPARE = {
 }
 CLASSIFIERS = ("rusl::platform::compat::is_syscall_error", "rusl::platform::numbers::non_negative_i32::NonNegativeI32::coerce_from_register")
 LOCAL_CRATES = ("rusl", "tiny_std", "tiny_start")
+
+
+WIDE_RESULTS = {"LSEEK", "READ", "WRITE", "READV", "WRITEV", "PREAD64", "PWRITE64", "PREADV", "PWRITEV", "MMAP", "MREMAP", "BRK", "COPY_FILE_RANGE", "SENDFILE", "SPLICE",
+                "GETDENTS64", "RECVFROM", "SENDTO", "RECVMSG", "SENDMSG", "READLINK", "READLINKAT", "GETRANDOM", "GETCWD"}
 
 
 def run(ck, progs, tier):
@@ -317,6 +321,23 @@ def classify_site(ck, prog, ctx, bb, name, kinds, key):
                         if direct:
                             ck.ob("C09.4", f"{key}|arith-on-success-value", False, fn=path, site=ctx.site(bb),
                                   detail=f"the success value of {name} is modified before being returned: {show(y)}")
+    # C09.4 (width): a full-width success value (offset, byte count, address) is not squeezed through a 32-bit type
+    if name in WIDE_RESULTS:
+        for rb, e in ctx.ret_expr().items():
+            for x in walk_deep(e, ctx.prov):
+                if x[0] == "agg" and x[2] == "Ok" and x[3]:
+                    payload = x[3][0]
+                    is_site = lambda z: z[0] == "call" and z[3] == bb and is_raw_syscall(z[1])  # noqa: E731
+                    if not any(is_site(z) for z in walk_deep(payload, ctx.prov, limit=200)):
+                        continue
+                    narrow = None
+                    for y in walk_deep(payload, ctx.prov, limit=200):
+                        if y[0] == "cast" and str(y[3]) in ("i32", "u32", "i16", "u16", "i8", "u8") and any(is_site(z) for z in walk_deep(y[2], ctx.prov, limit=100)):
+                            narrow = f"cast to {y[3]}"
+                        if y[0] == "call" and (y[1] or "").endswith("coerce_from_register") and any(is_site(z) for a in y[2] for z in walk_deep(a, ctx.prov, limit=100)):
+                            narrow = "NonNegativeI32 / Fd::coerce_from_register (a 31-bit decoder meant for descriptors and small counts)"
+                    ck.ob("C09.4", f"{key}|success-value-keeps-its-width", narrow is None, fn=path, site=ctx.site(bb),
+                          detail=f"the success value of {name} (an offset / byte count / address: any value up to -4096 as unsigned) passes through {narrow}: results of 2^31 and above come back altered")
     return "classified"
 
 
